@@ -68,7 +68,13 @@ func (c *Counter[T]) Add(v T) {
 		return
 	}
 	c.buf.Add(v)
-	if c.buf.Len() >= c.cap {
+
+	// Halve the buffer until there is room again. One pass is nearly always
+	// enough, but a pass may happen to keep every element, and then the buffer
+	// would still be full: the next element kept would push it past its limit.
+	// Each further pass halves the probability as well, so the estimate remains
+	// unbiased.
+	for c.buf.Len() >= c.cap && c.buf.Len() > 0 {
 		// Instead of flipping a coin for each element, grab blocks of 64 random
 		// bits and use them directly, refilling only as needed.
 		var nb, rnd uint64
